@@ -37,6 +37,11 @@ func (m *MemTable) Put(key, value []byte, seqNum uint64) {
 		return
 	}
 
+	if value == nil {
+		// A nil value is reserved for deletion markers; a put of "no bytes" stores
+		// an empty value
+		value = []byte{}
+	}
 	e := newEntry(key, value, TypeValue, seqNum)
 	m.skipList.Insert(e)
 
